@@ -17,7 +17,8 @@ def programs(ctx):
                     if ctx.quick and rng.random() < 0.55:
                         continue
                     generic = (not rhs_other) and (i % 5 == 0)
-                    out.append(fam2.c09_prog("p_%04d" % i, op, bl, br, rhs_other, req, generic=generic, bound_in_where=(i % 10 == 0), rhs_spelled_self=(i % 3 == 1)))
+                    out.append(fam2.c09_prog("p_%04d" % i, op, bl, br, rhs_other, req, generic=generic, bound_in_where=(i % 10 == 0), rhs_spelled_self=(i % 3 == 1),
+                                             req_style=["list", "list_rev", "split", "split_rev"][(i // 2) % 4] if len(req) == 2 else "list"))
                     i += 1
         for br in (False, True):
             for rhs_other in (False, True):
